@@ -247,7 +247,7 @@ def main():
 
     work = os.path.join(BUILD, "run-%s-%d" % (prop, os.getpid()))
     os.makedirs(work, exist_ok=True)
-    newrep = os.path.join(VERIF, "replays", "new")
+    newrep = os.environ.get("VERIF_REPLAY_DIR", os.path.join(VERIF, "replays", "new"))
     os.makedirs(newrep, exist_ok=True)
     known = load_known()
 
@@ -430,8 +430,9 @@ def main():
         "wall_s": round(wall, 1),
         "violations": len(new_viol),
     }
-    os.makedirs(os.path.join(VERIF, "evidence"), exist_ok=True)
-    with open(os.path.join(VERIF, "evidence", prop + ".json"), "w") as fh:
+    evdir = os.environ.get("VERIF_EVIDENCE_DIR", os.path.join(VERIF, "evidence"))  # scratch runs (mutants) write elsewhere
+    os.makedirs(evdir, exist_ok=True)
+    with open(os.path.join(evdir, prop + ".json"), "w") as fh:
         json.dump(evidence, fh, indent=1)
     shutil.rmtree(work, ignore_errors=True)
 
